@@ -78,7 +78,7 @@ theorem Inv.q_arr_fin {s : IState} (h : Inv s) (hq : Quiescent s) : s.arr = s.fi
 theorem Inv.q_between {s : IState} (h : Inv s) (hq : Quiescent s) : betweenTasks s = true := by
   simp [betweenTasks, h.q_cur hq]
 
-theorem sumUpto_zero (f : Nat → Nat) (n : Nat) (hf : ∀ k, k < n → f k = 0) : sumUpto f n = 0 := by
+theorem sumUpto_zero_of_all (f : Nat → Nat) (n : Nat) (hf : ∀ k, k < n → f k = 0) : sumUpto f n = 0 := by
   induction n with
   | zero => rfl
   | succ n ih =>
@@ -86,7 +86,7 @@ theorem sumUpto_zero (f : Nat → Nat) (n : Nat) (hf : ∀ k, k < n → f k = 0)
     rw [ih (fun k hk => hf k (Nat.lt_succ_of_lt hk)), hf n (Nat.lt_succ_self n)]
 
 theorem q_decOf_zero {s : IState} (hq : Quiescent s) (g : Nat) : sumUpto (decOf s g) s.ninst = 0 := by
-  apply sumUpto_zero
+  apply sumUpto_zero_of_all
   intro k hk
   simp [decOf, hq.2 k hk]
 
